@@ -23,9 +23,9 @@ import (
 // ---------------------------------------------------------------- locations
 
 const (
-	maxLive = 3 // at most 3 live blocks
-	nOff    = 2 // 2 offsets per block
-	nLoc    = maxLive * nOff
+	maxBlocks = 4 // upper bound of config.MaxLive (3 in the stated space, 4 in the thorough extension)
+	nOff      = 2 // 2 offsets per block
+	nLocMax   = maxBlocks * nOff
 )
 
 // Two blobs per block, back to back: [0,8) and [8,32). The same (offset,size)
@@ -40,11 +40,11 @@ func mkLoc(locIdx int) local.Location {
 }
 
 // locIndex returns block*2+offsetIndex, or -1 when l is not a member of the
-// alphabet (wrong offset/size combination or block index out of [0,maxLive)).
+// alphabet (wrong offset/size combination or block index out of [0,maxBlocks)).
 // Smaller index == older (block first, then offset): the harness' own
 // ordering, deliberately NOT local.Location.IsOlder.
 func locIndex(l local.Location) int {
-	if l.BlockIndex < 0 || l.BlockIndex >= maxLive {
+	if l.BlockIndex < 0 || l.BlockIndex >= maxBlocks {
 		return -1
 	}
 	for o := 0; o < nOff; o++ {
@@ -365,6 +365,7 @@ func crossCheckGatherer() (discards uint64, getTooMany uint64) {
 type config struct {
 	Backend  string   `json:"backend"` // mem-harness | mem-volatile | dev-harness | dev-volatile
 	Size     int      `json:"size"`
+	MaxLive  int      `json:"max_live_blocks"`
 	G        uint32   `json:"max_get_attempts"`
 	P        int      `json:"max_put_attempts"`
 	HashInit uint64   `json:"hash_init"`
@@ -375,6 +376,12 @@ type config struct {
 }
 
 func (c *config) init() {
+	if c.MaxLive == 0 {
+		c.MaxLive = 3
+	}
+	if c.MaxLive > maxBlocks || len(c.Keys) > 4 {
+		ev.HarnessError("configuration outside the supported alphabet: %d live blocks, %d keys", c.MaxLive, len(c.Keys))
+	}
 	c.keys = nil
 	c.keyIdx = map[local.Key]int{}
 	for i, s := range c.Keys {
@@ -385,7 +392,7 @@ func (c *config) init() {
 }
 
 func (c *config) name() string {
-	return fmt.Sprintf("%s/size%d/get%d/put%d/init%#x/keys%v", c.Backend, c.Size, c.G, c.P, c.HashInit, c.Keys)
+	return fmt.Sprintf("%s/size%d/live%d/get%d/put%d/init%#x/keys%v", c.Backend, c.Size, c.MaxLive, c.G, c.P, c.HashInit, c.Keys)
 }
 
 type instance struct {
@@ -418,9 +425,10 @@ func newInstance(cfg *config, h *labelHandles) *instance {
 }
 
 // Operation numbering: put(k,loc) = k*nLoc+loc, then push, then release.
-func (c *config) nOps() int      { return len(c.keys)*nLoc + 2 }
-func (c *config) opPush() int    { return len(c.keys) * nLoc }
-func (c *config) opRelease() int { return len(c.keys)*nLoc + 1 }
+func (c *config) nLoc() int      { return c.MaxLive * nOff }
+func (c *config) nOps() int      { return len(c.keys)*c.nLoc() + 2 }
+func (c *config) opPush() int    { return len(c.keys) * c.nLoc() }
+func (c *config) opRelease() int { return len(c.keys)*c.nLoc() + 1 }
 
 func (c *config) opName(op int) string {
 	switch {
@@ -429,7 +437,7 @@ func (c *config) opName(op int) string {
 	case op == c.opRelease():
 		return "release"
 	default:
-		return fmt.Sprintf("put %s %s", c.Keys[op/nLoc], locName(op%nLoc))
+		return fmt.Sprintf("put %s %s", c.Keys[op/c.nLoc()], locName(op%c.nLoc()))
 	}
 }
 
@@ -446,11 +454,11 @@ func (c *config) parseOp(s string) int {
 func (c *config) enabled(op, live int) bool {
 	switch {
 	case op == c.opPush():
-		return live < maxLive
+		return live < c.MaxLive
 	case op == c.opRelease():
 		return live > 0
 	default:
-		return (op%nLoc)/nOff < live
+		return (op%c.nLoc())/nOff < live
 	}
 }
 
@@ -465,7 +473,7 @@ func (in *instance) apply(op int) error {
 		in.bl.release()
 		return nil
 	default:
-		return in.klm.Put(c.keys[op/nLoc], mkLoc(op%nLoc))
+		return in.klm.Put(c.keys[op/c.nLoc()], mkLoc(op%c.nLoc()))
 	}
 }
 
